@@ -173,3 +173,91 @@ func VerifC17_ReservationHistory() {
 		}
 	}
 }
+
+// One step from an arbitrary consistent reservation state (set up through the real Reserve): the acting NodeClaim
+// evaluates a placement under one of the requirement sets and commits it. Covers histories of any length as far as the
+// invariant "remaining = capacity - holders, holders <= capacity, every NodeClaim's own list = what the manager holds
+// for it" is concerned — in particular a reserved set that is swapped for another one of the same size.
+func VerifC17_ReservationStep() {
+	rRegisterProvider()
+	ctx := opopts.ToContext(context.Background(), &opopts.Options{FeatureGates: opopts.FeatureGates{ReservedCapacity: true}})
+	capacity := map[string]int{"r-1": verifrt.IntRange("capacity.r-1", 0, 3), "r-2": verifrt.IntRange("capacity.r-2", 0, 3)}
+	its := []*cloudprovider.InstanceType{
+		{Name: "it-a", Offerings: cloudprovider.Offerings{
+			rOffering(v1.CapacityTypeReserved, "zone-1", "r-1", capacity["r-1"], true),
+			rOffering(v1.CapacityTypeReserved, "zone-2", "r-2", capacity["r-2"], true),
+			rOffering(v1.CapacityTypeOnDemand, "zone-1", "", 0, true),
+		}},
+	}
+	byID := map[string]*cloudprovider.Offering{"r-1": its[0].Offerings[0], "r-2": its[0].Offerings[1]}
+	rm := NewReservationManager(map[string][]*cloudprovider.InstanceType{"pool-a": its})
+	mode := ReservedOfferingModeFallback
+	if verifrt.Choice("strict", 0, 1) == 1 {
+		mode = ReservedOfferingModeStrict
+	}
+	ids := []string{"r-1", "r-2"}
+	held := map[string]map[string]bool{}
+	var claims []*NodeClaim
+	for i := 0; i < 3; i++ {
+		c := &NodeClaim{reservationManager: rm, topology: &Topology{}, hostname: "host-" + strconv.Itoa(i), reservedOfferingMode: mode}
+		mask := verifrt.Choice("pre."+c.hostname+".holds", 0, 3)
+		held[c.hostname] = map[string]bool{}
+		for k, id := range ids {
+			if mask&(1<<k) != 0 {
+				held[c.hostname][id] = true
+				c.reservedOfferings = append(c.reservedOfferings, byID[id])
+			}
+		}
+		claims = append(claims, c)
+	}
+	holders := func(r string) int {
+		n := 0
+		for _, h := range held {
+			if h[r] {
+				n++
+			}
+		}
+		return n
+	}
+	for _, id := range ids {
+		verifrt.Assume(holders(id) <= capacity[id])
+	}
+	for _, c := range claims {
+		rm.Reserve(c.hostname, c.reservedOfferings...)
+	}
+	for _, id := range ids {
+		verifrt.Assert(rm.RemainingCapacity(byID[id]) == capacity[id]-holders(id), "the pre-state is consistent")
+	}
+
+	c := claims[0]
+	reqSets := []scheduling.Requirements{
+		scheduling.NewRequirements(),
+		scheduling.NewRequirements(scheduling.NewRequirement(corev1.LabelTopologyZone, corev1.NodeSelectorOpIn, "zone-1")),
+		scheduling.NewRequirements(scheduling.NewRequirement(corev1.LabelTopologyZone, corev1.NodeSelectorOpIn, "zone-2")),
+	}
+	k := verifrt.Choice("requirements", 0, 2)
+	ofs, err := c.offeringsToReserve(ctx, its, reqSets[k])
+	for _, id := range ids {
+		verifrt.Assert(rm.RemainingCapacity(byID[id]) == capacity[id]-holders(id), "evaluating a placement does not change reservations")
+	}
+	if err != nil {
+		verifrt.Reach("deferred")
+		return
+	}
+	pod := &corev1.Pod{}
+	pod.Name, pod.UID = "pod-x", types.UID("uid-pod-x")
+	c.Add(ctx, pod, &PodData{}, reqSets[k], its, ofs, nil, nil)
+	now := map[string]bool{}
+	for _, o := range ofs {
+		now[o.ReservationID()] = true
+	}
+	if len(now) == len(held[c.hostname]) && len(now) == 1 && !now["r-1"] == held[c.hostname]["r-1"] {
+		verifrt.Reach("swapped-for-same-size")
+	}
+	held[c.hostname] = now
+	for _, id := range ids {
+		verifrt.Assert(holders(id) <= capacity[id], "the NodeClaims holding a reservation never exceed its capacity")
+		verifrt.Assert(rm.RemainingCapacity(byID[id]) == capacity[id]-holders(id), "remaining capacity = capacity minus holders")
+		verifrt.Assert(rm.HasReservation(c.hostname, byID[id]) == now[id], "the manager holds for a NodeClaim exactly the reservations the NodeClaim lists")
+	}
+}
